@@ -193,6 +193,7 @@ pub fn tokenize_request(keys: &[String], input: &str, flags: (bool, bool, bool, 
 
 /// The hook, with a panic of the lexer as an observation.
 pub fn impl_tokens(scope: &Scope, input: &str, flags: (bool, bool, bool, bool), limit: usize) -> Result<Vec<(i32, String, usize)>, String> {
+  crate::util::note_case(input);
   guarded(|| dmntk_feel_parser::verif::tokenize(scope, TT::StartExpression, input, flags, limit))
 }
 
